@@ -1284,7 +1284,8 @@ def run_composer(ctx, binp, rng):
     from .. import trxif_util as TI
     TI.build_harness(ctx)
     cases = []
-    bands = [("p900", list(range(1, 125))), ("dcs", list(range(512, 886))), ("egsm0", [0] + list(range(975, 1024))), ("dcs-high", list(range(822, 886)))]
+    bands = [("p900", list(range(1, 125))), ("dcs", list(range(512, 886))), ("egsm0", [0] + list(range(975, 1024))), ("dcs-high", list(range(822, 886))),
+             ("pcs", list(range(512, 811)))]      # a PCS 1900 cell: the renderer (gsm48_rr_render_ma, band indicator 1900) hands the decoded channels on with ARFCN_PCS set
     for name, pool in bands:
         for size in (1, 2, 17, 50, 61, 62, 63, 64):
             if size > len(pool):
@@ -1317,6 +1318,8 @@ def run_composer(ctx, binp, rng):
         hopping = o[2:2 + o[1]]
         if hopping != e[1]:
             continue          # the decoder itself deviates: reported by the decoder oracle above
+        if c["kind"].split(" ")[1] == "pcs":
+            hopping = [a | 0x8000 for a in hopping]       # what the renderer passes on for a PCS 1900 cell (proved + tied: renderband)
         r = TI.setfh_spec_check(ctx, rng.below(64), rng.below(64), hopping, "c20", extra=dict(path="composer", kind=c["kind"], decoder_case=show(c)["line"]))
         res[r] = res.get(r, 0) + 1
         ctx.nontrivial(("composer", c["kind"].split(" ")[1], min(len(hopping), 65), r))
